@@ -1996,6 +1996,28 @@ func flyioWide(r *Rng, o *Out, tier string) {
 			} else {
 				d.Storage = nil
 			}
+			if r.Chance(1, 2) {
+				// NESTED prefixes with masks of their own (a bucket, a directory in it, an object in that): every listed
+				// prefix the object starts with narrows the grant, also when the object IS one of the listed entries
+				base := pick(r, []string{"https://storage.fly/", "b/", "pub", ""})
+				chain := []string{base, base + "my_bucket", base + "my_bucket/", base + "my_bucket/dir/", base + "my_bucket/dir/obj"}
+				m := resset.ResourceSet[resset.Prefix, resset.Action]{}
+				for _, e := range chain {
+					if r.Chance(2, 3) {
+						m[resset.Prefix(e)] = r.mask()
+					}
+				}
+				if r.Chance(1, 4) {
+					m[resset.Prefix(base+"other/")] = r.mask()
+				}
+				c = &flyio.StorageObjects{Prefixes: m}
+				obj := resset.Prefix(pick(r, chain) + pick(r, []string{"", "", "", "x", "/y"}))
+				d.Storage = &obj
+				o.count("storage.nested-prefixes")
+				if _, listed := m[obj]; listed {
+					o.count("storage.nested-prefixes.object-is-a-listed-entry")
+				}
+			}
 		case 12: // roles as the library's own request type computes them, features in every spelling
 			ar := flyio.AllowedRoles(pick(r, []uint32{0, 1, 2, 3, 0xFFFFFFFF, 0xFFFFFFFE}))
 			c = &ar
